@@ -9,6 +9,12 @@ P(fn, w, extra, cls) == [op |-> "PartialMethods", fn |-> fn, in |-> w, cls |-> c
 T4 == << 101, 36, 248, 0 >>
 Id(st, ct) == EncIdentity("key", st, ct, st + ct + 1)
 Addr == EncRouterAddress(5, Zeros(8), << 78, 84, 67, 80, 50 >>, << << << 104, 111, 115, 116 >>, << 49, 46, 50, 46, 51, 46, 52 >> >> >>)
+\* an SSU2 address with introducer options (its String() and introducer helpers walk numbered keys), cut at every point; every method of what
+\* comes back is first called from two goroutines at once.  These sessions come FIRST: nothing in the process has touched such an address yet.
+AddrSSU == EncRouterAddress(8, Zeros(8), << 83, 83, 85, 50 >>, << << << 99, 97, 112, 115 >>, << 66, 67, 52 >> >>, << << 105, 101, 120, 112, 48 >>, << 49 >> >>,
+                                                                  << << 105, 104, 48 >>, Fill(32, 1) >>, << << 105, 116, 97, 103, 48 >>, << 55 >> >> >>)
+ColdVecs == << P("ReadRouterAddress", AddrSSU, [pairwise |-> TRUE, cold |-> TRUE], "raddr-ssu2-cold"),
+               P("ReadRouterInfo", EncRouterInfo(Id(7, 4), 7, Zeros(8), << AddrSSU >>, 0, << >>, 3), [pairwise |-> TRUE, cold |-> TRUE], "rinfo-ssu2-cold") >>
 PartialVecs ==
   Concat(SeqMap(LAMBDA p :
      << P("ReadKeysAndCert", Id(p[1], p[2]), << >>, "kac"), P("ReadKeysAndCertElgAndEd25519", Id(7, 0), << >>, "fast"), P("ReadKeysAndCertX25519AndEd25519", Id(7, 4), << >>, "fast"),
@@ -47,7 +53,7 @@ SignedDefectVecs ==
      SMS("ReadLeaseSet2", EncLS2(Id(11, 4), T4, << 2, 88 >>, 1, EncOffline(T4, 7, 11, 4), << >>, 1, << EncEncKey(4, 32, Fill(32, 1)) >>, 1, << EncLease2(1, T4, T4) >>, 7, 5), 11, 0, 6),
      SMS("ReadRouterInfo", EncRouterInfo(Id(7, 4), 7, Zeros(8), << Addr >>, 0, Opts2, 5), 7, 0, 7),
      SMS("ReadLeaseSet", EncLeaseSet(Id(7, 4), 7, 2, << EncLease(1, T4, Zeros(8)), EncLease(2, T4, Zeros(8)) >>, 5), 7, 0, 8) >>
-Vecs == ZeroVecs \o PartialVecs \o MutVecs \o SignedDefectVecs
+Vecs == ColdVecs \o ZeroVecs \o PartialVecs \o MutVecs \o SignedDefectVecs
 VARIABLE done
 Init == done = FALSE
 Next == ~done /\ ndJsonSerialize(OutFile, Vecs) /\ PrintT(<< "GENERATED", Len(Vecs) >>) /\ done' = TRUE
